@@ -29,6 +29,10 @@ CLAIMED = {
    technique="TLA+ Checksum.tla (Gate as the code's check order; launch enabled only by a passed check; TLC over all bit-string pairs); real Client.Start with SecureConfig on generated files, all single-bit flips / prefixes / extensions / empty / nil hash and tamper-after-ok histories; observations judged by TLC (TraceChecksum.tla)",
    text="TLC checks for all digests of 3 bits and all configured checksums of up to 4 bits, with and without a hash function, that the launch step is reachable only when the two are equal and that every other relation yields the corresponding error. The real Client.Start is run with a SecureConfig on generated executables (a script that records its own launch): the exact digest must launch; every one-bit flip at each of the digest's bit positions, every proper prefix, trailing bytes, empty/nil checksum, an unrelated checksum and a nil Hash must return the matching error with no launch, also 200 ms later; and a SecureConfig value reused after the file was changed in place (same length and mtime) must reject it. TLC maps each observation's class to a representative pair and judges it with Gate.",
    note="Trusted: the hash implementations, the marker file as the witness of execution. Quick: one file, sha256 exhaustively plus a few cases per other hash; thorough: 12 files x 4 hashes."),
+ "C16": dict(cat="model_checking", design="§6 C16",
+   technique="TLA+ ServeStartup.tla (startup steps as actions in the code's order; TLC over all cookie/mux classes) + Versions!Announce for the line's version and protocol; the real plugin binary exec'd directly per class; stdout bytes, exit status, an immediate connect and the process's own hook-event order judged by TLC (TraceServeStartup.tla)",
+   text="TLC checks for every configured-cookie class, cookie-environment class and multiplexing-variable class that no listener and no line exist without the right cookie, that a refusal ends with status 1, that the listener exists when the line is printed, that there is one line and that it has seven fields iff the host set the multiplexing variable. A real plugin process (plugin.Serve in the vplugin binary) is started directly for all 21 cookie combinations and all 18 (mux variable, TLS mode) combinations with random served/offered version sets: exit status, the raw stdout bytes (exactly one line, field count, core version, version and protocol as Versions!Announce says, certificate field iff a client certificate was sent), a connect to the announced address at the moment the line is read, and the order of the process's hook events (cookie accepted/refused, listener opened, line printed, stdio swapped, serving) are judged by TLC.",
+   note="Linux/unix sockets only. 'Nothing else on stdout' is observed for 150 ms. The event order relies on the hook points in server.go."),
  "C17": dict(cat="model_checking", design="§6 C17",
    technique="TLA+ Env.tla (last-wins layering of cmd.Env as the code builds it vs. the property's allowed sources; TLC over all 32 configs x 512 host environments); real Client.Start with RunnerFunc capture and with a real child process dumping its environment; observations judged by TLC (TraceEnv.tla)",
    text="TLC checks for every client configuration (AutoMTLS, multiplexing, socket group, custom runner, SkipHostEnv) and every subset of the nine variables present in the host's own environment that the effective source of each variable is one the property allows and that the negotiation variables do not depend on the host environment. The same cases run on the real code: the driver sets its own environment, starts a Client, and reads the environment handed to RunnerFunc or found in a real child process (env -0); last-wins values are classified as client / host / absent, the version list must be exactly the offered set, values must be the configured ones, stdin must be the host's; TLC judges each observation against both the property and the model of the code.",
